@@ -37,7 +37,7 @@ def _run(build):
             build(ip)
         except PathEnd:
             return None
-        if st.feasible():
+        if st.feasible_without_goals():
             obls.extend(st.obls)
         return None
     driver.explore(task)
